@@ -41,6 +41,24 @@ func richProgram(variant int) map[string]string {
 		lib("zeta", "zeta", 2)
 	}
 	files["side/side.go"] = "package side\n\nvar Loaded = true\n"
+	// a third-party dependency (vendored in the vendor layouts), dot-imported by an injector file and named in a value expression
+	files["DEP/dep.go"] = "package dep\n\ntype Config struct {\n\tName  string\n\tLevel int\n}\n\nconst DefaultName = \"dep\"\n\nvar DefaultLevel = 3\n"
+	files["app/wire_dep.go"] = `//go:build wireinject
+// +build wireinject
+
+package app
+
+import (
+	. "example.org/dep"
+	"github.com/google/wire"
+)
+
+func InitDep() Config {
+	panic(wire.Build(wire.Value(Config{Name: DefaultName, Level: DefaultLevel})))
+}
+
+var depCopy = Config{Name: DefaultName}
+`
 	files["app/types.go"] = `package app
 
 import (
@@ -205,8 +223,7 @@ func checkC16(c *h.Check) {
 		runSched := func(sched string) (string, int, string, string) {
 			dir := c.S.Dir("mo")
 			defer os.RemoveAll(dir)
-			h.WriteFiles(dir, h.ModuleFiles("example.com/m"))
-			h.WriteFiles(dir, files)
+			writeModuleWithDep(dir, files)
 			sp := filepath.Join(dir, ".sched")
 			tp := filepath.Join(dir, ".trace")
 			os.WriteFile(sp, []byte(sched), 0o644)
@@ -227,8 +244,7 @@ func checkC16(c *h.Check) {
 		// conformance: the un-instrumented binary produces the same bytes
 		{
 			dir := c.S.Dir("mo")
-			h.WriteFiles(dir, h.ModuleFiles("example.com/m"))
-			h.WriteFiles(dir, files)
+			writeModuleWithDep(dir, files)
 			r := h.RunLimited(dir, modEnv, 120e9, h.WireMemKB, c.S.Wire, "gen", "./app")
 			out, _ := os.ReadFile(filepath.Join(dir, genRel))
 			os.RemoveAll(dir)
@@ -405,6 +421,30 @@ func checkC16(c *h.Check) {
 	}
 }
 
+// splitDep separates the third-party dependency (files under DEP/) from the module's own files.
+func splitDep(files map[string]string) (own, dep map[string]string) {
+	own, dep = map[string]string{}, map[string]string{}
+	for p, c := range files {
+		if strings.HasPrefix(p, "DEP/") {
+			dep[strings.TrimPrefix(p, "DEP/")] = c
+		} else {
+			own[p] = c
+		}
+	}
+	return
+}
+
+// writeModuleWithDep lays the program out in module mode: the dependency is a second module reached by a replace directive.
+func writeModuleWithDep(dir string, files map[string]string) {
+	own, dep := splitDep(files)
+	mf := h.ModuleFiles("example.com/m")
+	mf["go.mod"] = strings.Replace(mf["go.mod"], "require github.com/google/wire v0.0.0\n", "require (\n\tgithub.com/google/wire v0.0.0\n\texample.org/dep v0.0.0\n)\n\nreplace example.org/dep => ./depmod\n", 1)
+	h.WriteFiles(dir, mf)
+	h.WriteFiles(dir, own)
+	h.WriteFiles(filepath.Join(dir, "depmod"), dep)
+	h.WriteFiles(filepath.Join(dir, "depmod"), map[string]string{"go.mod": "module example.org/dep\n\ngo 1.23\n"})
+}
+
 func firstDiff(a, b string) string {
 	al, bl := strings.Split(a, "\n"), strings.Split(b, "\n")
 	for i := 0; i < len(al) || i < len(bl); i++ {
@@ -460,8 +500,7 @@ func c16Configurations(c *h.Check, thorough bool, viol func(id, sym, detail stri
 				switch j.layout {
 				case "module", "module+vendor":
 					root = base
-					h.WriteFiles(root, h.ModuleFiles("example.com/m"))
-					h.WriteFiles(root, files)
+					writeModuleWithDep(root, files)
 					env = h.BaseEnv("GOCACHE=" + c.S.GoCache)
 					if j.layout == "module+vendor" {
 						r := h.Run(root, env, 120e9, "go", "mod", "vendor")
@@ -474,11 +513,15 @@ func c16Configurations(c *h.Check, thorough bool, viol func(id, sym, detail stri
 				default:
 					gp := base
 					root = filepath.Join(gp, "src", "example.com", "m")
-					h.WriteFiles(root, files)
+					own, dep := splitDep(files)
+					h.WriteFiles(root, own)
 					wdir := filepath.Join(gp, "src", "github.com", "google", "wire")
+					ddir := filepath.Join(gp, "src", "example.org", "dep")
 					if j.layout == "gopath+vendor" {
 						wdir = filepath.Join(root, "vendor", "github.com", "google", "wire")
+						ddir = filepath.Join(root, "vendor", "example.org", "dep")
 					}
+					h.WriteFiles(ddir, dep)
 					h.WriteFiles(wdir, map[string]string{"wire.go": string(wireRoot)})
 					env = h.BaseEnv("GOCACHE="+c.S.GoCache, "GO111MODULE=off", "GOFLAGS=", "GOPATH="+gp)
 				}
